@@ -21,6 +21,7 @@ class Recorder:
         self.h = h
         self.events = []
         self.nodes = []
+        self.asserts = True        # False: pyvis' own assertions are compiled away (python -O)
 
     def network(self, I, *a, **kw):
         rec = self
@@ -31,8 +32,8 @@ class Recorder:
             rec.nodes.append(n_id)
 
         def add_edge(I_, net, src, dst, **k):
-            # pyvis asserts that both nodes exist
-            if not any(I_.eq(src, n) for n in rec.nodes) or not any(I_.eq(dst, n) for n in rec.nodes):
+            # pyvis asserts that both nodes exist - with an `assert` statement, which is gone when the interpreter runs with -O
+            if rec.asserts and (not any(I_.eq(src, n) for n in rec.nodes) or not any(I_.eq(dst, n) for n in rec.nodes)):
                 raise Raised(B.mkexc("AssertionError", "non existent node"))
             arrows = k.get("arrows")
             directed = bool(I_.truth(net.attrs.get("directed"))) if "arrows" not in k else (isinstance(arrows, str) and "to" in arrows or isinstance(arrows, DictV))
@@ -66,8 +67,8 @@ def run(ctx):
     pairs = [(("DirectedEdge", "ab"), ("DirectedEdge", "ab")), (("DirectedEdge", "ab"), ("DirectedEdge", "ba")), (("DirectedEdge", "ab"), ("UnDirectedEdge", "ab")),
              (("UnDirectedEdge", "ba"), ("DirectedEdge", "aa")), (("SymTwo", "ab"), ("DirectedEdge", "ac")), (("DirectedEdge", "aa"), ("DirectedEdge", "bb"))]
     for links in singles + pairs:
-        for stale, cbs in itertools.product((None, 0, 1, 7, "equal-to-member", "falsy-vertices", "network-kwargs-directed", "class-level-names-as-user-attributes"), (False, True)):
-            if stale not in (None, "falsy-vertices", "network-kwargs-directed", "class-level-names-as-user-attributes") and not any("c" in e for _, e in links):
+        for stale, cbs in itertools.product((None, 0, 1, 7, "equal-to-member", "falsy-vertices", "network-kwargs-directed", "class-level-names-as-user-attributes", "pyvis-assertions-compiled-away"), (False, True)):
+            if stale not in (None, "falsy-vertices", "network-kwargs-directed", "class-level-names-as-user-attributes", "pyvis-assertions-compiled-away") and not any("c" in e for _, e in links):
                 continue
             if stale == "class-level-names-as-user-attributes" and not class_level_names(h):
                 continue
@@ -85,7 +86,7 @@ def run(ctx):
                 special = stale if isinstance(stale, str) else None
                 res.violation("EVENTS", FN, f"links={len(links)},shape={shape}," + (f"variant={special}" if special else f"stale-index-on-outside-vertex={stale is not None}"),
                               f"links {links}, " + ({"network-kwargs-directed": "network_kwargs={'directed': True}", "class-level-names-as-user-attributes": f"links carrying user attributes named {class_level_names(h)} (0 on directed links, 'no' on the others)",
-                                                    "equal-to-member": "outside vertex compares equal to a member", "falsy-vertices": "vertices whose truth value is False"}.get(special, special) if special
+                                                    "equal-to-member": "outside vertex compares equal to a member", "pyvis-assertions-compiled-away": "interpreter running with -O (pyvis' own `assert` on unknown node ids does nothing)", "falsy-vertices": "vertices whose truth value is False"}.get(special, special) if special
                                                    else f"outside vertex carries stale index {stale}") + f", callbacks {'given' if cbs else 'None'}: {why}", replay=replay(links, stale if not special or special in ("equal-to-member", "falsy-vertices") else None, cbs))
     res.rule("EVENTS", n)
     # ---- universe sizes other than two: ids 0..n-1 in universe order, one node each; the empty universe gives an empty network
@@ -147,6 +148,9 @@ def class_level_names(h):
 def evaluate(h, rec, fn, links, stale, cbs):
     h.reset()
     kwargs_directed = stale == "network-kwargs-directed"
+    rec.asserts = stale != "pyvis-assertions-compiled-away"
+    if stale == "pyvis-assertions-compiled-away":
+        stale = None
     shadow = class_level_names(h) if stale == "class-level-names-as-user-attributes" else []
     if kwargs_directed or stale == "class-level-names-as-user-attributes":
         stale = None
@@ -195,6 +199,9 @@ def evaluate(h, rec, fn, links, stale, cbs):
                 return f"node {i} labelled {lab!r}, expected rvfunc's label {want!r}", sample
     internal = [(idx[e[0]], idx[e[1]], KINDS[k], l) for l, (k, e) in zip(L, links) if e[0] in idx and e[1] in idx]
     got_edges = [e for e in rec.events if e[0] == "add_edge"]
+    for g in got_edges:
+        if g[1] not in (0, 1) or g[2] not in (0, 1) or isinstance(g[1], bool) or isinstance(g[2], bool):
+            return f"an edge is produced whose end is not a node of the network (a vertex outside the universe, or a missing end): {ev_str(g)}", sample
     # directed links: exactly one arrowed edge i -> j per link
     want_dir = [(w[0], w[1]) for w in internal if w[2]]
     got_dir = [(g[1], g[2]) for g in got_edges if g[3]]
